@@ -352,15 +352,23 @@ structure Manipulations where
   tbsPubKey : String
 deriving DecidableEq, Repr
 
+def optOid (s : String) : R (Option Oid) :=
+  if s.isEmpty then .ok none else match oidFromString s with | some o => .ok (some o) | none => .error "oid: not a dotted-decimal OID that fits int"
+
+def optRaw (s : String) : R (Option Bytes) :=
+  if s.isEmpty then .ok none else match readRawString s with | .ok b => .ok (some b) | .error e => .error e
+
 /-- `Manipulations.Apply`; an unparseable value is an error (and `initCertificate` reports it) -/
-def Manipulations.apply (m : Manipulations) : R Config.Manipulations := do
-  let osa ← if m.outerSigAlg.isEmpty then pure none else (do pure (some (← oidR m.outerSigAlg)))
-  let sv ← if m.sigValue.isEmpty then pure none else (do pure (some (← readRawString m.sigValue)))
-  let ts ← if m.tbsSig.isEmpty then pure none else (do pure (some (← oidR m.tbsSig)))
-  let tpa ← if m.tbsPubKeyAlg.isEmpty then pure none else (do pure (some (← oidR m.tbsPubKeyAlg)))
-  let tpk ← if m.tbsPubKey.isEmpty then pure none else (do pure (some (← readRawString m.tbsPubKey)))
-  pure { version := m.version, signatureAlgorithm := osa, signatureValue := sv, tbsSignature := ts,
-         tbsPublicKeyAlgorithm := tpa, tbsPublicKey := tpk }
+def Manipulations.apply (m : Manipulations) : R Config.Manipulations :=
+  match optOid m.outerSigAlg, optRaw m.sigValue, optOid m.tbsSig, optOid m.tbsPubKeyAlg, optRaw m.tbsPubKey with
+  | .ok osa, .ok sv, .ok ts, .ok tpa, .ok tpk =>
+    .ok { version := m.version, signatureAlgorithm := osa, signatureValue := sv, tbsSignature := ts,
+          tbsPublicKeyAlgorithm := tpa, tbsPublicKey := tpk }
+  | .error e, _, _, _, _ => .error e
+  | _, .error e, _, _, _ => .error e
+  | _, _, .error e, _, _ => .error e
+  | _, _, _, .error e, _ => .error e
+  | _, _, _, _, .error e => .error e
 
 structure CertConfig where
   alias_ : String
@@ -424,8 +432,7 @@ def initCertificate (c : CertConfig) (now offset : Int) : R CertificateContent :
     else pure (if c.keyAlgorithm.startsWith "RSA" then defaultSigRsa else defaultSigEc)
   let man ← c.manipulations.apply
   -- parseExtensions: a custom extension whose OID does not parse is a configuration error
-  for e in c.extensions do
-    if e.oid.isNone then throw "custom extension: oid out of range"
+  if c.extensions.any (·.oid.isNone) then throw "custom extension: oid out of range"
   pure { alias_ := c.alias_, serialNumber := c.serialNumber, issuerUniqueId := iuid, subjectUniqueId := suid,
          profile := c.profile, subject := dn, issuer := c.issuer, validity := val, keyAlgorithm := ka,
          signatureAlgorithm := sa, extensions := c.extensions, manipulations := man }
@@ -459,8 +466,7 @@ deriving Repr
 
 def initProfile (p : ProfileConfig) (now offset : Int) : R CertificateProfile := do
   let val ← toTimeStruct p.validity now offset
-  for e in p.extensions do
-    if e.ext.oid.isNone then throw "custom extension: oid out of range"
+  if p.extensions.any (·.ext.oid.isNone) then throw "custom extension: oid out of range"
   pure ⟨p.name, val, p.attributes, p.allowOther, p.extensions⟩
 
 end V1
